@@ -5,6 +5,10 @@ Protocol (first line selects the gate; strings are dot-separated hex code points
   filter <hex> [@ <hexpat>=<bit>*]                 the part after `@` is RECORDED from the real `re` calls
   learn <sig> [@ ok|bad] · forget <hex> · import <sig>* · thr <n> · addsig <sig> · clearaudit · adv <us>
   export · stats
+  new <thr> <rate|none> <adaptive> <custom sig>* [@ nb=<n>]   a further membrane of the same class, alive next to the
+        others, becomes the current one (n = size of the class's shipped table, recorded) · use <k> selects member k
+  xfer <k>                                          current.import_antibodies(member_k.export_antibodies())
+  setsig <i> <sig>                                  m.signatures[i mod len] = sig  (the public list edited in place)
   par <sched> <hex> <hex> [<hex>..] [@ o=<tid.tid..> ; <hexpat>=<bit>* ; ...]
         the listed inputs are filtered by as many THREADS on the one membrane, interleaved line by line by the
         deterministic scheduler (util.Sched; every lock attribute of the object replaced by a util.SLock) following the
@@ -486,11 +490,35 @@ class C10(Prop):
         lines = [" ".join(["mem", str(thr), rate, show_bool(adaptive)] + sigs)]
         hist = []
         hooked = False
+        nb = len(builtin)
+        colony = [None]               # generator-side view of every membrane alive: (sigs, learned, adaptive, hooked)
+        cur = 0
         for _ in range(rng.choice([1, 2, 3, 4, 6, 8, 10, 14])):
             op = rng.choice(["filter"] * 14 + ["learn", "learn", "forget", "import", "thr", "addsig", "adv", "adv",
                                                "clearaudit", "stats", "export", "thrattr", "rate", "rate", "adaptive",
-                                               "hook", "hook", "par", "par"])
-            if op == "par":
+                                               "hook", "hook", "par", "par", "new", "use", "xfer"])
+            if op == "new":
+                colony[cur] = (sigs, learned, adaptive, hooked)
+                custom = [self._rand_sig(rng, 3) for _ in range(rng.choice([0, 0, 1, 2]))]
+                adaptive = rng.random() < 0.7
+                lines.append(" ".join(["new", str(rng.choice([0, 1, 2, 2, 3])), rng.choice(["none", "none", "1", "2", "3"]),
+                                       show_bool(adaptive)] + custom))
+                sigs, learned, hooked = sigs[:nb] + custom, {}, False
+                colony.append(None)
+                cur = len(colony) - 1
+            elif op == "use":
+                k = rng.randrange(len(colony) + (1 if rng.random() < 0.05 else 0))
+                lines.append(f"use {k}")
+                if k < len(colony) and k != cur:
+                    colony[cur] = (sigs, learned, adaptive, hooked)
+                    sigs, learned, adaptive, hooked = colony[k]
+                    cur = k
+            elif op == "xfer":
+                k = rng.randrange(len(colony))
+                lines.append(f"xfer {k}")
+                if k != cur:
+                    learned.update(colony[k][1])
+            elif op == "par":
                 if hooked:
                     lines.append("hook none")
                     hooked = False
@@ -612,6 +640,85 @@ class C10(Prop):
                 lines.append("filter " + hexs(f"single {k}"))
         lines.append("stats")
         return {"lines": lines, "note": "flood: concurrent filter() calls on one membrane under a scheduled interleaving"}
+
+    def _gen_swap(self, rng):
+        """rule changes that leave the NUMBER of signatures unchanged between two scans: forget one / learn another,
+        re-learn or import under an existing key with another level or kind, a transfer that overwrites, an element of
+        the public `signatures` list replaced — then probes of the old and the new rule"""
+        builtin = list(self.mb_builtin) if rng.random() < 0.25 else []
+        custom = [self._rand_sig(rng, 3) for _ in range(rng.choice([0, 1, 2]))]
+        sigs = builtin + custom
+        lines = [" ".join(["mem", str(rng.choice([1, 2, 2, 3])), "none", "1"] + sigs)]
+        pool = [self._sigtok(p_, rng.randint(1, 3), False) for p_ in ("zebra-protocol", "omega handshake", "tango-7", "ab")] \
+            + [self._sigtok(r_, rng.randint(1, 3), True) for r_ in CUSTOM_RX[:4]]
+        a, b = rng.sample(pool, 2)
+        lines.append(("learn " if rng.random() < 0.6 else "import ") + a)
+        lines.append("filter " + hexs(rng.choice(BENIGN)))                       # a scan with the old rule set
+        pa, la, ra = a.split("/")
+        k = rng.random()
+        if k < 0.3:
+            lines += ["forget " + pa, "learn " + b]
+            probes = [a, b]
+        elif k < 0.55:
+            a2 = f"{pa}/{rng.choice([x for x in '0123' if x != la])}/{ra}"
+            lines.append(rng.choice(["learn ", "import "]) + a2)
+            probes = [a2]
+        elif k < 0.7:
+            a2 = f"{pa}/{rng.choice('123')}/{ra}"
+            lines += ["new 2 none 1", "learn " + a2, "learn " + b, "forget " + b.split("/")[0], "use 0", "xfer 1"]
+            probes = [a2, b]
+        elif k < 0.85 and sigs:
+            lines.append(f"setsig {rng.randrange(len(sigs))} {b}")
+            probes = [b, rng.choice(sigs)]
+        else:
+            lines += ["forget " + pa, "import " + b + " " + a]
+            probes = [a, b]
+        for sg in probes:
+            inst = self._instance(rng, sg)
+            lines.append("filter " + hexs(self._embed(rng, inst, True) if rng.random() < 0.6 else inst))
+        lines.append("stats")
+        return {"lines": lines, "note": "rule set changed between two scans without changing its size"}
+
+    def _gen_colony(self, rng):
+        """a colony: several membranes alive, one meets attacks and learns, antibodies are handed on, the others are
+        probed with variants; rules relaxed on the donor afterwards must not reach the recipients (and vice versa)"""
+        builtin = list(self.mb_builtin) if rng.random() < 0.3 else []
+        lines = [" ".join(["mem", str(rng.choice([1, 2, 2, 3])), "none", "1"] + builtin
+                          + ([self._rand_sig(rng, 3)] if rng.random() < 0.5 else []))]
+        n = rng.choice([2, 2, 3])
+        for _ in range(n - 1):
+            lines.append(" ".join(["new", str(rng.choice([1, 2, 2, 3])), rng.choice(["none", "none", "2"]),
+                                   show_bool(rng.random() < 0.6)] + ([self._rand_sig(rng, 3)] if rng.random() < 0.4 else [])))
+        donor = rng.randrange(n)
+        lines.append(f"use {donor}")
+        pats = []
+        for _ in range(rng.choice([1, 2, 3])):
+            sg = self._rand_sig(rng, 3) if rng.random() < 0.6 else self._sigtok(rng.choice(["omega handshake", "Zebra-7", "ab"]), rng.randint(1, 3), False)
+            pats.append(sg)
+            lines.append(("learn " if rng.random() < 0.7 else "import ") + sg)
+            if rng.random() < 0.5:
+                lines.append("filter " + hexs(self._embed(rng, self._instance(rng, sg), True)))
+        for k in range(n):
+            if k == donor and rng.random() < 0.8:
+                continue
+            lines.append(f"use {k}")
+            if rng.random() < 0.85:
+                lines.append(f"xfer {donor}")
+            for sg in pats:
+                inst = self._instance(rng, sg)
+                c = self._flip(rng, inst) if rng.random() < 0.5 else self._embed(rng, inst, True)
+                lines.append("filter " + hexs(c))
+            j = rng.random()
+            if j < 0.3:
+                lines += [f"use {donor}", "forget " + pats[0].split("/")[0], f"use {k}",
+                          "filter " + hexs("again " + self._instance(rng, pats[0]))]
+            elif j < 0.5:
+                lines += ["forget " + pats[0].split("/")[0], f"use {donor}",
+                          "filter " + hexs("donor " + self._instance(rng, pats[0]))]
+            elif j < 0.65:
+                lines += ["addsig " + self._sigtok("hello", 3, False), f"use {(k + 1) % n}", "filter " + hexs("hello there")]
+        lines.append("stats")
+        return {"lines": lines, "note": "colony: several membranes alive, antibody transfer, probes with variants"}
 
     def _gen_retune(self, rng):
         """an operator retunes the live membrane: rate limit raised / lowered / switched off and on, a hook that
@@ -739,8 +846,8 @@ class C10(Prop):
         for i in range(n):
             huge_ok = huge_budget > 0 and rng.random() < (0.02 if tier == "quick" else 0.01)
             k = rng.random()
-            c = self._gen_retune(rng) if k < 0.08 else self._gen_flood(rng) if k < 0.16 \
-                else self._gen_membrane(rng, tier, huge_ok) if k < 0.6 else self._gen_innate(rng, tier, huge_ok)
+            c = self._gen_retune(rng) if k < 0.08 else self._gen_flood(rng) if k < 0.15 else self._gen_colony(rng) \
+                if k < 0.21 else self._gen_swap(rng) if k < 0.27 else self._gen_membrane(rng, tier, huge_ok) if k < 0.62 else self._gen_innate(rng, tier, huge_ok)
             if huge_ok and any(len(l) > 100_000 for l in c["lines"]):
                 huge_budget -= 1
             yield c
@@ -786,6 +893,15 @@ class C10(Prop):
                         ls += ["filter " + hexs(f"warm up {i}") for i in range(3)] + [f"rate {r1}"] + ([gap] if gap else [])
                         ls += ["filter " + hexs(f"burst {i}" + (" jailbreak" if i == 2 else "")) for i in range(8)] + ["stats"]
                         retune.append({"lines": ls, "note": "rate limit re-assigned on the live membrane, burst in one window"})
+        jb = hexs("jailbreak")
+        calpha = ["use 0", "use 1", "xfer 0", "xfer 1", "filter " + hexs("a JailBreak!"), "forget " + jb,
+                  "learn " + self._sigtok("jailbreak", 3, False), "thr 2", "addsig " + self._sigtok("jailbreak", 2, False),
+                  "filter " + hexs("hello")]
+        colony = []
+        for k in range(1, 4):
+            for ops in itertools.product(calpha, repeat=k):
+                colony.append({"lines": ["mem 2 none 1", "learn " + self._sigtok("jailbreak", 2, False), "new 3 none 0",
+                                         "use 0"] + list(ops) + ["stats", "use 0", "stats"], "note": f"two membranes alive, depth {k}"})
         L = self.par_lines
         floods = []
 
@@ -807,6 +923,9 @@ class C10(Prop):
                          f"schedule with one context switch (limits 1-3, either thread first, switch after each of the "
                          f"{L} lines a call executes) and schedules with two context switches (limit 2, "
                          f"{'every third' if stride > 1 else 'every'} second switch point)", "cases": floods},
+                {"name": "two membranes alive (donor that learned a pattern, recipient with adaptive immunity off and "
+                         "threshold CRITICAL): all histories of <= 3 ops over use / xfer / filter (hit, benign) / forget / "
+                         "learn (same key, other level) / thr / addsig", "cases": colony},
                 {"name": "rate limit re-assigned on a live membrane: 5 initial x 6 new limits x 3 time gaps x hook/no hook, "
                          "3 warm-up calls + burst of 8", "cases": retune},
                 {"name": "every shipped signature (membrane, innate) x every instance of the vetted table x every "
@@ -904,6 +1023,7 @@ class C10(Prop):
         obs = []
         m = None
         im = None
+        members, mcls, nbuiltin = [], None, 0
         self.clock.us = 0
         for idx, raw in enumerate(lines):
             line = raw.split(" @", 1)[0].rstrip()
@@ -930,7 +1050,30 @@ class C10(Prop):
                     cls = type("MembraneUnderTest", (MB.Membrane,), {"INNATE_SIGNATURES": builtin_objs})
                     m = cls(signatures=[self._mk_sig(x) for x in rest], threshold=MB.ThreatLevel(int(t[1])),
                             enable_adaptive=t[3] == "1", rate_limit=None if t[2] == "none" else int(t[2]), silent=True)
+                    members, mcls, nbuiltin = [m], cls, len(builtin_objs)
                     obs.append("ok")
+                elif op == "new":
+                    # a further membrane of the SAME class (the same shipped table), alive next to the others
+                    if not members:
+                        obs.append("bad-op")
+                        continue
+                    m = mcls(signatures=[self._mk_sig(x) for x in t[4:]], threshold=MB.ThreatLevel(int(t[1])),
+                             enable_adaptive=t[3] == "1", rate_limit=None if t[2] == "none" else int(t[2]), silent=True)
+                    members.append(m)
+                    lines[idx] = line + f" @ nb={nbuiltin}"
+                    obs.append(f"ok k={len(members) - 1}")
+                elif op == "use":
+                    if not members or not t[1].isdigit() or int(t[1]) >= len(members):
+                        obs.append("bad-op")
+                        continue
+                    m = members[int(t[1])]
+                    obs.append("ok")
+                elif op == "xfer":
+                    if not members or not t[1].isdigit() or int(t[1]) >= len(members):
+                        obs.append("bad-op")
+                        continue
+                    m.import_antibodies(members[int(t[1])].export_antibodies())
+                    obs.append(f"ok ln={m.get_statistics()['learned_patterns']}")
                 elif op == "filter":
                     if m is None:
                         m = MB.Membrane(silent=True)
@@ -1007,6 +1150,12 @@ class C10(Prop):
                     obs.append("ok")
                 elif op == "addsig":
                     m.add_signature(self._mk_sig(t[1]))
+                    obs.append("ok")
+                elif op == "setsig":
+                    if not m.signatures:
+                        obs.append("bad-op")
+                        continue
+                    m.signatures[int(t[1]) % len(m.signatures)] = self._mk_sig(t[2])
                     obs.append("ok")
                 elif op == "clearaudit":
                     m.clear_audit_log()
@@ -1244,24 +1393,27 @@ class C10(Prop):
         return out
 
     def _oracle_mem(self, lines, obs, out):
-        thr, rate = 2, None
-        sigs, learned = [], {}
-        audit = 0
+        """Several membranes may be alive (`new` / `use`); each is judged by ITS OWN rules, threshold, rate limit,
+        audit trail, counters and memory — the clock is common.  `S` is the state of the current one as the
+        property text implies it."""
+        from types import SimpleNamespace as NS
+
+        def fresh(thr, rate, adaptive, sigs):
+            return NS(thr=thr, rate=rate, adaptive=adaptive, sigs=list(sigs), learned={}, audit=0, allowed_times=[],
+                      blocked_before={}, epoch_blocked=[], n_calls=0, n_blocked=0)
+        S = fresh(2, None, True, [])
+        members = [S]
+        base = []                     # the class-level built-in table every member of this case starts from
         now = 0
-        allowed_times = []
-        blocked_before = {}
-        epoch_blocked = []            # (content, blocking signatures) scan-blocked since the last relaxing op
-        adaptive = True
-        n_calls = n_blocked = 0
 
         def judge(content, f, o, idx):
             """one decision (f = [allowed, level, m=[..], ...]) against the property text, under the rules, threshold,
             rate limit and clock visible at this moment"""
             allowed, level = f[0] == "1", int(f[1])
             matched = [self._parse_sig(x) for x in f[2][3:-1].split(",") if x]
-            active = sigs + list(learned.values())
+            active = S.sigs + list(S.learned.values())
             hits = [s for s in active if self._sig_hits(s, content)]
-            blockers = [s for s in hits if s[1] >= thr]
+            blockers = [s for s in hits if s[1] >= S.thr]
             # allowed only if no active signature at or above the threshold matches
             if allowed and blockers:
                 out.append(Violation("allowed_only_if_clean", "blocked: " + repr(blockers[:2]), o[:120], idx))
@@ -1274,15 +1426,15 @@ class C10(Prop):
                 if sorted(matched) != sorted(hits):
                     out.append(Violation("matched_are_the_matching_signatures", repr(sorted(hits))[:200],
                                          repr(sorted(matched))[:200], idx))
-                if allowed != (want < thr):
-                    out.append(Violation("blocked_iff_level_reaches_threshold", f"allowed={want < thr}", o[:80], idx))
+                if allowed != (want < S.thr):
+                    out.append(Violation("blocked_iff_level_reaches_threshold", f"allowed={want < S.thr}", o[:80], idx))
             # replay memory
-            if content in blocked_before and allowed:
+            if content in S.blocked_before and allowed:
                 out.append(Violation("replay_memory", "still blocked (blocked before at line "
-                                     f"{blocked_before[content]})", o[:80], idx))
+                                     f"{S.blocked_before[content]})", o[:80], idx))
             # case changes / embedding of something blocked under the current rules
-            for prev in epoch_blocked:
-                ex = self._variant_expectation(prev, content, active, thr)
+            for prev in S.epoch_blocked:
+                ex = self._variant_expectation(prev, content, active, S.thr)
                 if ex == "expect" and allowed:
                     out.append(Violation("blocked_stays_blocked_under_case_and_embedding",
                                          f"blocked like {prev[0][:40]!r}", o[:80], idx))
@@ -1290,61 +1442,88 @@ class C10(Prop):
             # rate window: at most rate_limit admitted in any 60 s window
             # (judged by the limit visible through m.rate_limit at this moment; admissions made while no limit
             #  was in force are not counted)
-            if allowed and rate is not None:
-                allowed_times.append(now)
-                k = sum(1 for x in allowed_times if now - WINDOW_US < x <= now)
-                if k > rate:
-                    out.append(Violation("rate_window", f"<= {rate} admitted in the last 60 s", f"{k}", idx))
+            if allowed and S.rate is not None:
+                S.allowed_times.append(now)
+                k = sum(1 for x in S.allowed_times if now - WINDOW_US < x <= now)
+                if k > S.rate:
+                    out.append(Violation("rate_window", f"<= {S.rate} admitted in the last 60 s", f"{k}", idx))
             if not allowed and not rate_or_replay:
-                blocked_before.setdefault(content, idx)
+                S.blocked_before.setdefault(content, idx)
                 if blockers and len(content) < 5000:
-                    epoch_blocked.append((content, blockers))
-                    del epoch_blocked[:-6]
+                    S.epoch_blocked.append((content, blockers))
+                    del S.epoch_blocked[:-6]
 
         for idx, (line, o) in enumerate(zip(lines, obs)):
             t = line.split(" ")
             op = t[0]
+            if o == "bad-op":
+                continue
             if op == "mem":
-                thr, rate, adaptive = int(t[1]), (None if t[2] == "none" else int(t[2])), t[3] == "1"
-                sigs, learned = [self._parse_sig(x) for x in t[4:]], {}
-                audit, now, allowed_times, blocked_before, epoch_blocked = 0, 0, [], {}, []
-                n_calls = n_blocked = 0
+                all_sigs = [self._parse_sig(x) for x in t[4:]]
+                # the built-in part of the line (what the class table holds) is a prefix of shipped tokens
+                nb = 0
+                pool = list(self.mb_builtin)
+                for x in t[4:]:
+                    if x in pool:
+                        pool.remove(x)
+                        nb += 1
+                    else:
+                        break
+                base = all_sigs[:nb]
+                S = fresh(int(t[1]), (None if t[2] == "none" else int(t[2])), t[3] == "1", all_sigs)
+                members = [S]
+                now = 0
+            elif op == "new":
+                # another membrane from the same class: the shipped table + ITS custom signatures, nothing else
+                S = fresh(int(t[1]), (None if t[2] == "none" else int(t[2])), t[3] == "1",
+                          base + [self._parse_sig(x) for x in t[4:]])
+                members.append(S)
+            elif op == "use":
+                S = members[int(t[1])]
+            elif op == "xfer":
+                # antibody transfer: everything the donor has learned / imported becomes active here
+                for k_, v_ in members[int(t[1])].learned.items():
+                    S.learned[k_] = v_
+                S.epoch_blocked = []
             elif op == "adv":
                 now += int(t[1])
             elif op in ("thr", "thrattr"):
-                thr = int(t[1])
-                epoch_blocked = []
+                S.thr = int(t[1])
+                S.epoch_blocked = []
             elif op == "rate":
-                rate = None if t[1] == "none" else int(t[1])
+                S.rate = None if t[1] == "none" else int(t[1])
             elif op == "adaptive":
-                adaptive = t[1] == "1"
+                S.adaptive = t[1] == "1"
             elif op == "addsig":
-                sigs.append(self._parse_sig(t[1]))
+                S.sigs.append(self._parse_sig(t[1]))
+            elif op == "setsig":
+                S.sigs[int(t[1]) % len(S.sigs)] = self._parse_sig(t[2])
+                S.epoch_blocked = []
             elif op == "learn":
-                if adaptive and not o.startswith("raise"):
+                if S.adaptive and not o.startswith("raise"):
                     s = self._parse_sig(t[1])
-                    learned[s[0]] = s
-                epoch_blocked = []
+                    S.learned[s[0]] = s
+                S.epoch_blocked = []
             elif op == "forget":
-                learned.pop(unhexs(t[1]), None)
-                epoch_blocked = []
+                S.learned.pop(unhexs(t[1]), None)
+                S.epoch_blocked = []
             elif op == "import":
                 for x in t[1:]:
                     s = self._parse_sig(x)
-                    learned[s[0]] = s
-                epoch_blocked = []
+                    S.learned[s[0]] = s
+                S.epoch_blocked = []
             elif op == "clearaudit":
-                audit = 0
+                S.audit = 0
             elif op == "filter":
                 content = dec(t[1])
                 f = o.split(" ")
-                audit += 1
-                n_calls += 1
+                S.audit += 1
+                S.n_calls += 1
                 if o.startswith("raise:hook:") or o.startswith("0 "):
-                    n_blocked += 1
+                    S.n_blocked += 1
                 if not o.startswith("raise:") or o.startswith("raise:hook:"):
                     # the counters the gate publishes are complete, also when the user's hook raised
-                    want = [f"tf={n_calls}", f"tb={n_blocked}"]
+                    want = [f"tf={S.n_calls}", f"tb={S.n_blocked}"]
                     got = [x for x in f if x.startswith(("tf=", "tb="))]
                     if got != want:
                         out.append(Violation("bookkeeping_complete", " ".join(want), " ".join(got), idx))
@@ -1352,22 +1531,22 @@ class C10(Prop):
                 if hk != "-":
                     # while the hook runs, the decision it is told about is already in the audit trail
                     seen = hk.split("/")
-                    if seen[0] != str(audit) or seen[1] != "1":
-                        out.append(Violation("audit_visible_to_hook", f"hook sees audit={audit} ending with its decision",
+                    if seen[0] != str(S.audit) or seen[1] != "1":
+                        out.append(Violation("audit_visible_to_hook", f"hook sees audit={S.audit} ending with its decision",
                                              f"hook saw {hk}", idx))
                 if o.startswith("raise:"):
                     if not o.startswith("raise:hook:"):
                         out.append(Violation("never_raises", "a FilterResult for every input string", o[:80], idx))
                         continue
                     # the exception is the hook's; the decision (a block: hooks only hear about threats) must be booked
-                    if f[1] != f"audit={audit}" or f[2] != "last=1":
-                        out.append(Violation("audit_complete", f"audit={audit} last=1 (decision taken before the hook raised)",
+                    if f[1] != f"audit={S.audit}" or f[2] != "last=1":
+                        out.append(Violation("audit_complete", f"audit={S.audit} last=1 (decision taken before the hook raised)",
                                              f"{f[1]} {f[2]}", idx))
-                    blocked_before.setdefault(content, idx)
+                    S.blocked_before.setdefault(content, idx)
                     continue
                 # every decision is appended to the audit trail
-                if f[3] != f"audit={audit}" or f[4] != "last=1":
-                    out.append(Violation("audit_complete", f"audit={audit} last=1", f"{f[3]} {f[4]}", idx))
+                if f[3] != f"audit={S.audit}" or f[4] != "last=1":
+                    out.append(Violation("audit_complete", f"audit={S.audit} last=1", f"{f[3]} {f[4]}", idx))
                 judge(content, f, o, idx)
             elif op == "par" and o.startswith("par "):
                 # several threads filter at the same instant: every clause is judged per decision; the window and the
@@ -1379,23 +1558,28 @@ class C10(Prop):
                     continue
                 for content, part in zip(contents, parts):
                     f = part.split(" ")
-                    audit += 1
-                    n_calls += 1
+                    S.audit += 1
+                    S.n_calls += 1
                     if part.startswith("raise:"):
                         out.append(Violation("never_raises", "a FilterResult for every input string, from every thread",
                                              part[:80], idx))
                         continue
                     if f[0] == "0":
-                        n_blocked += 1
+                        S.n_blocked += 1
                     if "in=1" not in f:
                         out.append(Violation("audit_complete", "the decision of every concurrent call is in the audit trail",
                                              part[:80], idx))
                     judge(content, f, part, idx)
                 if not any(p_.startswith("raise:") for p_ in parts):
-                    want = [f"audit={audit}", f"tf={n_calls}", f"tb={n_blocked}"]
+                    want = [f"audit={S.audit}", f"tf={S.n_calls}", f"tb={S.n_blocked}"]
                     got = [x for x in tail if x.startswith(("audit=", "tf=", "tb="))]
                     if got != want:
                         out.append(Violation("bookkeeping_complete", " ".join(want), " ".join(got), idx))
+            elif op == "stats" and o.startswith("tf="):
+                want = [f"tf={S.n_calls}", f"tb={S.n_blocked}", f"ln={len(S.learned)}"]
+                got = [x for x in o.split(" ") if x.startswith(("tf=", "tb=", "ln="))]
+                if got != want:
+                    out.append(Violation("bookkeeping_complete", " ".join(want), " ".join(got), idx))
 
     def _oracle_inn(self, lines, obs, out):
         thr = 3
